@@ -165,6 +165,23 @@ def case(rng):
         a = gv(3)
         b = a if rng.random() < 0.5 else gv(3)
         return ["(equal? '%s '%s)" % (a, b)], ["V #t" if a == b else "V #f"]
+    if p == "equal?" and rng.random() < 0.3:
+        # the SAME structure with ONE leaf replaced by a near-equal datum: a number of the other exactness (2 / 2.0, 1/2 / 0.5),
+        # a string for a symbol, a character for a symbol, #t for a non-#f value: equal? is eqv? on the leaves
+        twins = [("2", "2.0"), ("1/2", "0.5"), ("0", "0.0"), ("a", '"a"'), ("a", "#\\a"), ("1", "#t"), ("()", "#f"), ("-1", "-1.0")]
+        x, y = rng.choice(twins)
+        if rng.random() < 0.5: x, y = y, x
+        def shape(d, leaf):
+            r = rng.random()
+            if d <= 0 or r < 0.3: return leaf
+            items = [str(rng.choice([0, 1, "b", "c"])) for _ in range(rng.randrange(0, 3))]
+            items.insert(rng.randrange(len(items) + 1), shape(d - 1, leaf))
+            if r < 0.55: return "#(" + " ".join(items) + ")"
+            if r < 0.7 and len(items) >= 2: return "(" + " ".join(items[:-1]) + " . " + items[-1] + ")"
+            return "(" + " ".join(items) + ")"
+        st = rng.getstate(); a = shape(3, x); rng.setstate(st); b = shape(3, y)
+        same = rng.random() < 0.25
+        return ["(equal? '%s '%s)" % (a, a if same else b)], ["V #t" if same else "V #f"]
     if p == "equal?":
         a = gen_list(rng, 4, 2, improper=0.2)
         b = a if rng.random() < 0.5 else gen_list(rng, 4, 2, improper=0.2)
